@@ -36,6 +36,10 @@ RULE = (
     ' the generated contention, the holder letting go at a generated phase '
     'of the poll period; non-trivial there: the lock was held at the reques'
     't, or a waiter queued before the copy is still waiting after it. '
+    ' Part client also runs Dataset.load / update / both of the shelve back'
+    'end with abort() turning true at a generated poll (the lock must be gi'
+    'ven back), and may let the reopening of the database fail once during '
+    'the copy. '
 )
 ASSUMPTIONS = [
     'one acquire request per connection (what comms.acquire does); a slot '
